@@ -759,7 +759,9 @@ pub fn gen_enum_chaos(prop: &str, seed: u64, variant: u64) -> Plan {
 pub fn gen_plan(prop: &str, seed: u64, variant: u64) -> Plan {
     match prop {
         "C03" if variant % 4 == 2 => gen_p_family(prop, seed, &PProfile { ttl_pct: 70, lookup_pct: 45, over_capacity_pct: 30, remove_pct: 8, ..PProfile::default() }),
+        "C04" if variant % 4 == 2 => gen_p_family(prop, seed, &PProfile { over_capacity_pct: 0, collide_pct: 0, ttl_pct: 30, remove_pct: 10, if_present_pct: 5, wait_pct: 5, ..PProfile::default() }),
         "C03" | "C04" => gen_ttl_family(prop, seed, variant % 4 == 3),
+        "C05" if variant % 4 == 2 => gen_p_family(prop, seed, &PProfile { over_capacity_pct: 20, collide_pct: 5, ttl_pct: 70, remove_pct: 8, lookup_pct: 25, faulty_pct: 0, ..PProfile::default() }),
         "C05" => gen_ttl_family(prop, seed, variant % 2 == 1),
         "C09" if variant % 4 == 2 => gen_p_family(prop, seed, &PProfile { clients: (2, 4), keys: (1, 3), validator_pct: 100, if_present_pct: 25, lookup_pct: 15, remove_pct: 8, over_capacity_pct: 20, collide_pct: 0, ttl_pct: 25, ops: (6, 24), ..PProfile::default() }),
         "C09" => gen_ttl_family_c(prop, seed, variant % 5 == 4, true),
